@@ -52,6 +52,7 @@ class extract_visitor(NodeVisitor):
         self.top = flow.scope.top
         self.flow = flow
         self.generic_visit(tree)
+        self.top.resolve_nonlocals()
         return flow
 
     def make_flow(self, hint, parents):
@@ -339,6 +340,10 @@ class extract_visitor(NodeVisitor):
     def visit_Global(self, node):
         # type: (ast.Global) -> None
         self.flow.scope.globals.update(node.names)
+
+    def visit_Nonlocal(self, node):
+        # type: (ast.Nonlocal) -> None
+        self.flow.scope.nonlocals.update(node.names)
 
     def visit_Name(self, node):
         # type: (ast.Name) -> None
